@@ -149,12 +149,15 @@ class Quantity:
         if isinstance(other, (int, float)):
             other = Quantity(other)
         if np.all(other.magnitude.value!=0):
-            other.to(self.units())
-        if not np.allclose(self.magnitude.value, other.magnitude.value, rtol=MAGNITUDE_PRECISION):
+            # compare in the units of self without converting `other` in place
+            value = self._convert(other.magnitude, other.baseunits, BaseUnits(self.units())).value
+            sameunits = True
+        else:
+            value = other.magnitude.value
+            sameunits = self.baseunits==other.baseunits
+        if not np.allclose(self.magnitude.value, value, rtol=MAGNITUDE_PRECISION):
             return False
-        if not self.baseunits==other.baseunits:
-            return False
-        return True
+        return sameunits
     
     def __str__(self):
         magnitude = str(self.magnitude)
